@@ -127,6 +127,10 @@ def oracle2(scn, c_out, l_out):
         return None
     B = P.get(scn.meta.get("tables"), ({}, {}))[0]
     ed = scn.meta.get("ed")
+    if ed is None:
+        tml = next((l.split() for l in scn.lines if l.startswith("tm.new")), None)
+        if tml is None: return None
+        ed = int(tml[1])
     # the regulation transcription must cover the sequence
     from props import c09
     for k in lists:
